@@ -255,6 +255,25 @@ func propC09(rec *stats.Rec, env *c09Env, exclude func(*specs.Spec) string) func
 	return func(t *rapid.T) {
 		hostile := rapid.IntRange(0, 7).Draw(t, "hostileStrings") != 0
 		s := gen.Spec(t, "s", gen.SpecOpts{Edit: gen.EditOpts{Hostile: hostile}, MaxDevices: 3})
+		if len(s.Devices) > 0 && rapid.IntRange(0, 15).Draw(t, "onlyEmptyLists") == 0 {
+			// a device whose edits are present-but-empty lists only: nothing of it reaches the file, so it must be
+			// refused for writing like a device without edits - or read back
+			i := rapid.IntRange(0, len(s.Devices)-1).Draw(t, "emptyListsIn")
+			s.Devices[i].ContainerEdits = specs.ContainerEdits{}
+			switch rapid.IntRange(0, 4).Draw(t, "emptyListKind") {
+			case 0:
+				s.Devices[i].ContainerEdits.AdditionalGIDs = []uint32{}
+			case 1:
+				s.Devices[i].ContainerEdits.Env = []string{}
+			case 2:
+				s.Devices[i].ContainerEdits.Mounts = []*specs.Mount{}
+			case 3:
+				s.Devices[i].ContainerEdits.Hooks = []*specs.Hook{}
+			default:
+				s.Devices[i].ContainerEdits.DeviceNodes = []*specs.DeviceNode{}
+			}
+			rec.Label("device-with-empty-lists-only")
+		}
 		if exclude != nil {
 			if why := exclude(s); why != "" {
 				rec.Excluded(why)
